@@ -2496,6 +2496,170 @@ func totalMirrorToD(c *Ctx, r *Rng, emit func(dec, how, src string, b []byte, ex
 	}
 }
 
+// ---------------------------------------------------------------- whole files re-assembled from tables
+
+// totalSplitFont: the tables of an sfnt file (own directory parser: no library code).
+func totalSplitFont(file []byte) (scaler uint32, tabs map[string][]byte, ok bool) {
+	if len(file) < 12 {
+		return 0, nil, false
+	}
+	scaler = uint32(file[0])<<24 | uint32(file[1])<<16 | uint32(file[2])<<8 | uint32(file[3])
+	n := int(file[4])<<8 | int(file[5])
+	if len(file) < 12+16*n {
+		return 0, nil, false
+	}
+	tabs = map[string][]byte{}
+	for i := 0; i < n; i++ {
+		e := file[12+16*i : 28+16*i]
+		off := int(e[8])<<24 | int(e[9])<<16 | int(e[10])<<8 | int(e[11])
+		l := int(e[12])<<24 | int(e[13])<<16 | int(e[14])<<8 | int(e[15])
+		if off < 0 || l < 0 || off+l > len(file) {
+			return 0, nil, false
+		}
+		tabs[string(e[:4])] = append([]byte(nil), file[off:off+l]...)
+	}
+	return scaler, tabs, true
+}
+
+// totalJoinFont assembles an sfnt file (sorted directory, 4-byte alignment; checksums are not
+// verified by the reader and left zero).
+func totalJoinFont(scaler uint32, tabs map[string][]byte) []byte {
+	names := make([]string, 0, len(tabs))
+	for n := range tabs {
+		names = append(names, n)
+	}
+	sort.Strings(names)
+	b := totalBe32b(int(scaler))
+	b = append(b, totalBe16b(len(names))...)
+	b = append(b, 0, 0, 0, 0, 0, 0)
+	off := 12 + 16*len(names)
+	for _, n := range names {
+		b = append(b, n...)
+		b = append(b, 0, 0, 0, 0)
+		b = append(b, totalBe32b(off)...)
+		b = append(b, totalBe32b(len(tabs[n]))...)
+		off += (len(tabs[n]) + 3) &^ 3
+	}
+	for _, n := range names {
+		b = append(b, tabs[n]...)
+		for len(b)%4 != 0 {
+			b = append(b, 0)
+		}
+	}
+	return b
+}
+
+type totalFontVariant struct {
+	how  string
+	file []byte
+}
+
+// totalFontVariants: tables removed (each alone and in pairs) and the glyph counts of maxp, hhea,
+// hmtx, loca and post made to disagree by ±1, ±2 — alone and together with a removed table.
+func totalFontVariants(file []byte) []totalFontVariant {
+	scaler, tabs, ok := totalSplitFont(file)
+	if !ok {
+		return nil
+	}
+	var out []totalFontVariant
+	clone := func(skip ...string) map[string][]byte {
+		m := map[string][]byte{}
+		for k, v := range tabs {
+			m[k] = v
+		}
+		for _, s := range skip {
+			delete(m, s)
+		}
+		return m
+	}
+	names := make([]string, 0, len(tabs))
+	for n := range tabs {
+		names = append(names, n)
+	}
+	sort.Strings(names)
+	for i, a := range names {
+		out = append(out, totalFontVariant{"drop:" + strings.TrimSpace(a), totalJoinFont(scaler, clone(a))})
+		for _, b := range names[i+1:] {
+			out = append(out, totalFontVariant{"drop2", totalJoinFont(scaler, clone(a, b))})
+		}
+	}
+	word := func(t []byte, at, delta int) []byte {
+		c := append([]byte(nil), t...)
+		if at+2 <= len(c) {
+			v := (int(c[at])<<8 | int(c[at+1])) + delta
+			if v < 0 {
+				v = 0
+			}
+			c[at], c[at+1] = byte(v>>8), byte(v)
+		}
+		return c
+	}
+	resize := func(t []byte, delta int) []byte { // delta in bytes
+		if delta >= 0 {
+			return append(append([]byte(nil), t...), make([]byte, delta)...)
+		}
+		if -delta >= len(t) {
+			return nil
+		}
+		return append([]byte(nil), t[:len(t)+delta]...)
+	}
+	locaEntry := 2
+	if h := tabs["head"]; len(h) >= 52 && (h[50] != 0 || h[51] != 0) {
+		locaEntry = 4
+	}
+	for _, d := range []int{-2, -1, 1, 2} {
+		changes := map[string]func(m map[string][]byte){
+			"maxp": func(m map[string][]byte) { m["maxp"] = word(m["maxp"], 4, d) },
+			"hhea": func(m map[string][]byte) { m["hhea"] = word(m["hhea"], 34, d) },
+			"hmtx": func(m map[string][]byte) { m["hmtx"] = resize(m["hmtx"], 2*d) },
+			"hmtx4": func(m map[string][]byte) {
+				m["hmtx"] = resize(m["hmtx"], 4*d)
+				m["hhea"] = word(m["hhea"], 34, d)
+			},
+			"loca": func(m map[string][]byte) {
+				if l := m["loca"]; len(l) >= locaEntry {
+					if d > 0 {
+						for k := 0; k < d; k++ {
+							l = append(append([]byte(nil), l...), l[len(l)-locaEntry:]...)
+						}
+						m["loca"] = l
+					} else {
+						m["loca"] = resize(l, locaEntry*d)
+					}
+				}
+			},
+			"post": func(m map[string][]byte) { m["post"] = word(m["post"], 32, d) },
+		}
+		keys := []string{"maxp", "hhea", "hmtx", "hmtx4", "loca", "post"}
+		for _, k := range keys {
+			if k != "hmtx4" && tabs[k] == nil {
+				continue
+			}
+			for _, drop := range []string{"", "maxp", "hhea", "hmtx", "post", "OS/2", "name", "cmap"} {
+				if drop == k || (drop != "" && tabs[drop] == nil) {
+					continue
+				}
+				m := clone()
+				changes[k](m)
+				if drop != "" {
+					delete(m, drop)
+				}
+				for n, v := range m {
+					if v == nil {
+						delete(m, n)
+					}
+				}
+				how := fmt.Sprintf("count:%s%+d", k, d)
+				if drop != "" {
+					how += "+drop:" + strings.TrimSpace(drop)
+				}
+				out = append(out, totalFontVariant{how, totalJoinFont(scaler, m)})
+			}
+		}
+	}
+	return out
+}
+
 // ---------------------------------------------------------------- generator
 
 func areaTotal(c *Ctx) {
@@ -2613,6 +2777,32 @@ func areaTotal(c *Ctx) {
 				emit("hmtx", "truncate-companion", s.src, s.bytes, " hhea="+hx(hh[:n]))
 			}
 			break
+		}
+	}
+
+	// 2c. whole files re-assembled from the tables of the seed fonts: tables removed (alone and in
+	// pairs), glyph counts of maxp/hhea/hmtx/loca/post disagreeing by ±1, ±2, also with a table removed
+	for _, s := range seeds {
+		if s.dec != "sfnt" || strings.HasPrefix(s.src, "corpus:") || len(s.bytes) > 16000 {
+			continue
+		}
+		vv := totalFontVariants(s.bytes)
+		step := 1
+		if c.Tier != "thorough" && len(vv) > 220 {
+			step = len(vv)/220 + 1
+		}
+		for i := r.Intn(step); i < len(vv); i += step {
+			how := vv[i].how
+			if strings.HasPrefix(how, "count:") {
+				if j := strings.IndexAny(how, "+-"); j > 0 {
+					c.Stat("font-assembly", how[:j])
+				}
+				how = "font-count-mismatch"
+			} else {
+				c.Stat("font-assembly", how)
+				how = "font-tables-removed"
+			}
+			both("sfnt", how, s.src, vv[i].file, "")
 		}
 	}
 
